@@ -541,7 +541,7 @@ class Frame(Widget, WidgetContainerMixin, typing.Generic[BodyWidget, HeaderWidge
                 return False
             return self.header.mouse_event((maxcol,), event, button, col, row, focus)
 
-        if row >= maxrow - ftrim:  # within footer
+        if ftrim and row >= maxrow - ftrim:  # within footer
             focus = focus and self.focus_part == "footer"
             if is_mouse_press(event) and button == 1 and self.footer.selectable():
                 self.focus_position = "footer"
